@@ -201,3 +201,110 @@ Proof.
   rewrite <- (firstn_skipn 3 (skipn (stop_idx stop s) s)) at 1. rewrite H3. f_equal.
   rewrite skipn_skipn'. f_equal. lia.
 Qed.
+
+(* ------------------------------------------------------------ "at" forms of the buffer lemmas *)
+Ltac lsolve := repeat rewrite <- app_assoc; cbn [app]; reflexivity.
+Ltac lensolve := repeat rewrite app_length; cbn [length]; lia.
+
+Lemma scan_at stop b pre mid post n : b = pre ++ mid ++ 0 :: post -> n = length pre -> stop 0 = true ->
+  c_scan stop b n = Some (n + stop_idx stop mid)%nat.
+Proof. intros -> -> H. apply scan_form. exact H. Qed.
+Lemma strlen_at b pre mid post n : b = pre ++ mid ++ 0 :: post -> n = length pre -> nz mid ->
+  c_strlen b n = Some (length mid).
+Proof. intros -> -> H. apply strlen_form. exact H. Qed.
+Lemma cstr_at_at b pre mid post n : b = pre ++ mid ++ 0 :: post -> n = length pre -> nz mid ->
+  cstr_at b n = Some mid.
+Proof. intros -> -> H. apply cstr_form. exact H. Qed.
+Lemma brd_at b a x r n : b = a ++ x :: r -> n = length a -> brd b n = Some x.
+Proof. intros -> ->. rewrite brd_app0. reflexivity. Qed.
+Lemma bwr_at b a x r n c : b = a ++ x :: r -> n = length a -> bwr b n c = Some (a ++ c :: r).
+Proof. intros -> ->. apply bwr_app. Qed.
+Lemma sub_at {A} (b pre mid post : list A) n k : b = pre ++ mid ++ post -> n = length pre -> k = length mid ->
+  sub b n k = Some mid.
+Proof. intros -> -> ->. apply sub_form. Qed.
+Lemma blit_at {A} (b pre mid post new : list A) n : b = pre ++ mid ++ post -> n = length pre ->
+  length new = length mid -> blit b n new = Some (pre ++ new ++ post).
+Proof. intros -> -> H. apply blit_form. exact H. Qed.
+
+Lemma forallb_nostop_nz stop l : nz l -> forallb (fun c => negb (stop c)) l = true -> nz l.
+Proof. auto. Qed.
+
+(* ------------------------------------------------------------ phase 2 *)
+Lemma parse_buffer_spec s tail len : nz s -> (len <= length s)%nat ->
+  exists tail2 bufsz, parse_buffer (s ++ 0 :: tail) len = UVal (skipn len s ++ 0 :: tail2, bufsz) /\
+    ((bufsz = O /\ length (skipn len s ++ 0 :: tail2) = STATIC_SZ) \/
+     (bufsz = S (length (skipn len s)) /\ tail2 = [] /\ (STATIC_SZ <= length (skipn len s))%nat)).
+Proof.
+  intros Hs Hl. unfold parse_buffer.
+  assert (E: s ++ 0 :: tail = firstn len s ++ skipn len s ++ 0 :: tail).
+  { rewrite app_assoc, firstn_skipn. reflexivity. }
+  assert (Hfl: length (firstn len s) = len) by (rewrite firstn_length; lia).
+  rewrite (strlen_at _ (firstn len s) (skipn len s) tail len E) by (auto using nz_skipn).
+  cbn [ulift ubind].
+  rewrite (sub_at _ (firstn len s) (skipn len s ++ [0]) tail len) by (try lsolve; try lensolve; rewrite E; lsolve).
+  cbn [ulift ubind].
+  destruct (STATIC_SZ <=? length (skipn len s))%nat eqn:Eh.
+  - apply Nat.leb_le in Eh. exists [], (S (length (skipn len s))). split.
+    + f_equal. f_equal. lia.
+    + right. auto.
+  - apply Nat.leb_gt in Eh. exists (uzeros (STATIC_SZ - (length (skipn len s) + 1))), O. split.
+    + rewrite <- app_assoc. reflexivity.
+    + left. split; [reflexivity|]. rewrite app_length. cbn [length]. unfold uzeros. rewrite repeat_length. lia.
+Qed.
+
+(* ------------------------------------------------------------ phase 3 *)
+Definition stop3 (c : N) : bool := (c =? 0) || (c =? 47) || (c =? 35) || (c =? 63).
+
+Lemma two_left {A} (w : list A) n : length w = (n + 3)%nat -> exists y1 y2, skipn (n + 1) w = [y1; y2].
+Proof.
+  intros H. remember (skipn (n + 1) w) as u eqn:Eu.
+  assert (length u = 2%nat) by (subst u; rewrite skipn_length; lia).
+  destruct u as [|y1 [|y2 [|]]]; simpl in *; try lia. eauto.
+Qed.
+
+Lemma parse_authority_spec rest tail2 : nz rest ->
+  exists auth rem y1 y2,
+    rest = auth ++ rem /\ forallb (fun c => negb (stop3 c)) auth = true /\
+    (rem = [] \/ exists x m, rem = x :: m /\ stop3 x = true) /\
+    parse_authority ([58; 47; 47] ++ rest ++ 0 :: tail2) =
+      UVal (auth ++ 0 :: y1 :: y2 :: rem ++ 0 :: tail2, (length auth + 3)%nat).
+Proof.
+  intros Hr. unfold parse_authority. fold stop3.
+  change (fun c : N => (c =? 0) || (c =? 47) || (c =? 35) || (c =? 63)) with stop3.
+  rewrite (scan_at stop3 _ [58; 47; 47] rest tail2 3) by (try lsolve; reflexivity).
+  cbn [ulift ubind].
+  (* unify the two cases: the buffer is w ++ c :: after *)
+  assert (Hsp: exists auth rem c after,
+     rest = auth ++ rem /\ length auth = stop_idx stop3 rest /\
+     forallb (fun c => negb (stop3 c)) auth = true /\
+     (rem = [] \/ exists x m, rem = x :: m /\ stop3 x = true) /\
+     c :: after = rem ++ 0 :: tail2).
+  { destruct (stop_idx_split stop3 rest) as [[H1 H2]|(m1 & x & m2 & H1 & H2 & H3 & H4)].
+    - exists rest, [], 0, tail2. rewrite app_nil_r. repeat split; auto.
+    - exists m1, (x :: m2), x, (m2 ++ 0 :: tail2). repeat split; auto. right. eauto. }
+  destruct Hsp as (auth & rem & c & after & Hrest & Hla & Hns & Hrem & Hca).
+  rewrite <- Hla.
+  assert (Hna: nz auth). { subst rest. apply nz_app in Hr. tauto. }
+  set (w := [58; 47; 47] ++ auth).
+  assert (Eb: [58; 47; 47] ++ rest ++ 0 :: tail2 = w ++ c :: after).
+  { subst rest w. rewrite Hca. lsolve. }
+  assert (Hw: length w = (length auth + 3)%nat) by (subst w; cbn [app length]; lia).
+  rewrite (brd_at _ w c after) by (auto; lia).
+  cbn [ulift ubind].
+  rewrite (bwr_at _ w c after _ 0) by (auto; lia).
+  cbn [ulift ubind].
+  rewrite (strlen_at (w ++ 0 :: after) [58; 47; 47] auth after 3) by (auto; subst w; lsolve).
+  cbn [ulift ubind].
+  rewrite (sub_at (w ++ 0 :: after) [58; 47; 47] (auth ++ [0]) after 3) by (try lensolve; subst w; lsolve).
+  cbn [ulift ubind].
+  destruct (two_left w (length auth) Hw) as (y1 & y2 & Hy).
+  assert (Ew: w = firstn (length auth + 1) w ++ [y1; y2]) by (rewrite <- Hy; symmetry; apply firstn_skipn).
+  rewrite (blit_at (w ++ 0 :: after) [] (firstn (length auth + 1) w) ([y1; y2] ++ 0 :: after) (auth ++ [0]) 0);
+    [ | rewrite Ew at 1; lsolve | reflexivity | rewrite firstn_length; lensolve ].
+  cbn [ulift ubind app].
+  rewrite (bwr_at _ (auth ++ 0 :: [y1; y2]) 0 after _ c) by (try lsolve; lensolve).
+  cbn [ulift ubind].
+  exists auth, rem, y1, y2. repeat split; auto.
+  f_equal. f_equal. rewrite <- Hca. lsolve.
+  Show.
+Qed.
